@@ -411,11 +411,15 @@ func fullWalk(caller, scannerFn *ssa.Function, dir int) (bool, string) {
 		if !ok || ia.X != instrs {
 			return false, "scanner is not given an element of the caller's own sequence"
 		}
+		isCall := func(in ssa.Instruction) bool { return in == cs.Instr.(ssa.Instruction) }
 		if dir > 0 {
 			found := false
 			for _, l := range RangeLoops(caller) {
 				if l.Over == instrs && l.Key == ia.Index {
 					found = true
+					if ok, _ := EveryIterationPasses(l.Body, l.Header, isCall); !ok {
+						return false, "the scanner is skipped for some instructions (the call is conditional inside the walk): dependencies of those instructions are never recorded"
+					}
 				}
 			}
 			if !found {
@@ -442,6 +446,11 @@ func fullWalk(caller, scannerFn *ssa.Function, dir int) (bool, string) {
 			}
 			if !initOK || !condOK {
 				return false, "backward walk does not run from len(instrs)-1 down to 0"
+			}
+			if iff, ok := ph.Block().Instrs[len(ph.Block().Instrs)-1].(*ssa.If); ok {
+				if ok2, _ := EveryIterationPasses(iff.Block().Succs[0], ph.Block(), isCall); !ok2 {
+					return false, "the scanner is skipped for some instructions (the call is conditional inside the walk): dependencies of those instructions are never recorded"
+				}
 			}
 		}
 	}
